@@ -87,7 +87,10 @@ var c30GetEnv = sync.OnceValue(func() *c30Env {
 
 // ---------------------------------------------------------------- in-memory stream
 
-var errC30WouldBlock = errors.New("c30: read on an empty stream that the peer has not closed")
+var (
+	errC30WouldBlock = errors.New("c30: read on an empty stream that the peer has not closed")
+	errC30ReadGuard  = errors.New("c30: harness guard: read buffer above the bound")
+)
 
 type c30Chunking struct {
 	Name   string
@@ -117,6 +120,8 @@ type c30Stream struct {
 	closed   bool
 	ch       c30Chunking
 	ci       int
+	maxRead  int  // >0: a Read with a larger buffer fails (guard against per-read giant allocations in hostile mode)
+	guarded  bool // the guard fired
 	blocked  bool // a Read found the stream empty while the writer had not closed it
 	badWrite bool // a Write after Close
 	written  int
@@ -153,6 +158,12 @@ func (s *c30Stream) Read(p []byte) (int, error) {
 
 	if len(p) == 0 {
 		return 0, nil
+	}
+
+	if s.maxRead > 0 && len(p) > s.maxRead {
+		s.guarded = true
+
+		return 0, errC30ReadGuard
 	}
 
 	if len(s.buf) == 0 {
@@ -271,15 +282,19 @@ func c30Stack() string {
 	return string(b)
 }
 
-// c30NoPanic runs f (calls into mitum only; never a harness Fatalf) and turns a panic into a violation.
+// c30NoPanic runs f (calls into mitum only; never a harness Fatalf) and turns a panic into a violation whose
+// signature names the panicking function. The message is the same for the same input (rapid re-runs a failing
+// case and compares); the stack goes to the log.
 func c30NoPanic(t ev.TB, r *ev.Rec, what string, f func()) {
 	defer func() {
 		if x := recover(); x != nil {
-			if r.Failed() {
-				panic(x) // rapid unwinding after a reported violation
+			if strings.HasPrefix(fmt.Sprintf("%T", x), "rapid.") {
+				panic(x) // rapid's own unwinding (Fatalf / invalid data), not a panic of the code under test
 			}
 
-			r.Violation(t, "panic-"+c30PanicSite(), "%s panicked: %v\n%s", what, x, c30Stack())
+			site := c30PanicSite()
+			t.Logf("panic in %s: %v\n%s", what, x, c30Stack())
+			r.Violation(t, "panic-"+site, "%s panicked in %s: %v", what, site, x)
 		}
 	}()
 
@@ -1234,6 +1249,19 @@ func c30Hostile(t ev.TB, r *ev.Rec, env *c30Env, side int, raw []byte, ch c30Chu
 	in := &c30Stream{ch: ch, buf: append([]byte(nil), raw...), closed: true}
 	out := &c30Stream{}
 
+	if c30Walk(raw).MaxAlloc <= c30MaxDeclared {
+		in.maxRead = c30MaxReadBuf // never reached unless the walker is wrong about what the reader reads
+	}
+
+	defer func() {
+		if in.guarded {
+			res.Classes = append(res.Classes, "guard:giant-read-buffer")
+		}
+	}()
+
+	// every message names the input, so a reported violation is self-contained
+	where := fmt.Sprintf(" [side %d, chunking %s%v, %d-byte stream %s]", side, ch.Name, ch.Cuts, len(raw), c30Short(raw))
+
 	seterr := func(err error) {
 		res.Err = err.Error()
 		if len(res.Err) > 120 {
@@ -1249,7 +1277,7 @@ func c30Hostile(t ev.TB, r *ev.Rec, env *c30Env, side int, raw []byte, ch c30Chu
 			err error
 		)
 
-		c30NoPanic(t, r, "ReadRequestHead", func() { h, err = b.ReadRequestHead(ctx) })
+		c30NoPanic(t, r, "ReadRequestHead"+where, func() { h, err = b.ReadRequestHead(ctx) })
 
 		if err != nil {
 			seterr(err)
@@ -1257,10 +1285,10 @@ func c30Hostile(t ev.TB, r *ev.Rec, env *c30Env, side int, raw []byte, ch c30Chu
 			return res
 		}
 
-		c30CheckHeader(t, r, env, h, "ReadRequestHead", &res)
+		c30CheckHeader(t, r, env, h, "ReadRequestHead"+where, &res)
 
 		if b.Encoder == nil {
-			r.Violation(t, "nil-encoder-without-error", "ReadRequestHead returned a header but left the broker without encoder")
+			r.Violation(t, "nil-encoder-without-error", "ReadRequestHead returned a header but left the broker without encoder%s", where)
 		}
 
 		res.Msgs++
@@ -1274,7 +1302,7 @@ func c30Hostile(t ev.TB, r *ev.Rec, env *c30Env, side int, raw []byte, ch c30Chu
 				rh   quicstreamheader.ResponseHeader
 			)
 
-			c30NoPanic(t, r, "handler ReadBody", func() { bt, bl, body, enc, rh, err = b.ReadBody(ctx) })
+			c30NoPanic(t, r, "handler ReadBody"+where, func() { bt, bl, body, enc, rh, err = b.ReadBody(ctx) })
 
 			if err != nil {
 				seterr(err)
@@ -1284,7 +1312,7 @@ func c30Hostile(t ev.TB, r *ev.Rec, env *c30Env, side int, raw []byte, ch c30Chu
 
 			res.Msgs++
 
-			if !c30CheckBody(t, r, env, "handler ReadBody", bt, bl, body, enc, rh, len(raw), &res) {
+			if !c30CheckBody(t, r, env, "handler ReadBody"+where, bt, bl, body, enc, rh, len(raw), &res) {
 				return res
 			}
 		}
@@ -1305,7 +1333,7 @@ func c30Hostile(t ev.TB, r *ev.Rec, env *c30Env, side int, raw []byte, ch c30Chu
 		)
 
 		if pattern&(1<<uint(res.Msgs)) == 0 {
-			c30NoPanic(t, r, "ReadResponseHead", func() { enc, rh, err = b.ReadResponseHead(ctx) })
+			c30NoPanic(t, r, "ReadResponseHead"+where, func() { enc, rh, err = b.ReadResponseHead(ctx) })
 
 			if err != nil {
 				seterr(err)
@@ -1316,17 +1344,17 @@ func c30Hostile(t ev.TB, r *ev.Rec, env *c30Env, side int, raw []byte, ch c30Chu
 			res.Msgs++
 
 			if rh == nil || enc == nil {
-				r.Violation(t, "nil-header-without-error", "ReadResponseHead returned header=%v encoder=%v and no error", rh != nil, enc != nil)
+				r.Violation(t, "nil-header-without-error", "ReadResponseHead returned header=%v encoder=%v and no error%s", rh != nil, enc != nil, where)
 
 				return res
 			}
 
-			c30CheckHeader(t, r, env, rh, "ReadResponseHead", &res)
+			c30CheckHeader(t, r, env, rh, "ReadResponseHead"+where, &res)
 
 			continue
 		}
 
-		c30NoPanic(t, r, "client ReadBody", func() { bt, bl, body, enc, rh, err = b.ReadBody(ctx) })
+		c30NoPanic(t, r, "client ReadBody"+where, func() { bt, bl, body, enc, rh, err = b.ReadBody(ctx) })
 
 		if err != nil {
 			seterr(err)
@@ -1336,7 +1364,7 @@ func c30Hostile(t ev.TB, r *ev.Rec, env *c30Env, side int, raw []byte, ch c30Chu
 
 		res.Msgs++
 
-		if !c30CheckBody(t, r, env, "client ReadBody", bt, bl, body, enc, rh, len(raw), &res) {
+		if !c30CheckBody(t, r, env, "client ReadBody"+where, bt, bl, body, enc, rh, len(raw), &res) {
 			return res
 		}
 	}
@@ -1392,7 +1420,7 @@ func c30Record(t ev.TB, r *ev.Rec, env *c30Env, tr c30Transcript, side int) (raw
 }
 
 var c30HostileLens = []uint64{
-	0, 1, 2, 7, 8, 255, 1 << 15, 1 << 16, 1 << 20, 1 << 22, 1 << 31, 1<<31 + 1, 1 << 32, 1<<63 - 1, 1 << 63, 1<<63 + 1, ^uint64(0) - 7, ^uint64(0),
+	0, 1, 2, 7, 8, 255, 1 << 15, 1 << 16, 1 << 18, 1 << 31, 1<<31 + 1, 1 << 32, 1<<63 - 1, 1 << 63, 1<<63 + 1, ^uint64(0) - 7, ^uint64(0),
 }
 
 var c30HostileJSON = []string{
@@ -1569,7 +1597,7 @@ func TestC30(t *testing.T) {
 	r.Assume("request/response headers are valid (callers run IsValid before writing) and fixed-length bodies are written with their true length",
 		"the handler prefix (32 bytes) is consumed by quicstream.PrefixHandler before the handler broker reads; the harness does the same",
 		"a fixed-length body is handed out lazily: a stream that ends before the declared length shows as a short read to the consumer holding bodyLength (counted, not judged)",
-		"hint/header length words above MaxInt32 are rejected by the reader; below that the reader allocates what the peer declares (observed, not judged; 64 MiB is exercised once, larger accepted lengths up to the reader's 2 GiB cap are not)",
+		"hint/header length words above MaxInt32 are rejected by the reader; below that the reader allocates what the peer declares (observed, not judged; EnsureRead allocates the remaining declared length again for every Read call; 64 MiB is exercised once, other declared lengths between 256 KiB and the reader's 2 GiB cap are skipped)",
 		"a header returned without error must survive IsValid / OK / Err / Handler calls (what the handler layer does next) without panic")
 
 	// ---- deterministic: a large accepted hint length (64 MiB; the reader's own cap is 2 GiB - 1) on a short stream
@@ -1595,11 +1623,18 @@ func TestC30(t *testing.T) {
 			}
 
 			r.Case(fmt.Sprintf("maxalloc side=%d", side), true, "mode:maxalloc")
+
+			if side == 0 {
+				r.Sample(map[string]any{"mode": "maxalloc", "stream": c30Short(raw)})
+			}
 		}
 	})
 
 	// ---- A. round trips
 	maxMore := r.N(6, 6)
+	rtSamples := 0
+
+	r.MaxSamples(6)
 
 	r.Checks(4000, 80000)
 	r.ShrinkTime(30 * time.Second)
@@ -1653,7 +1688,8 @@ func TestC30(t *testing.T) {
 		fp := fmt.Sprintf("rt|%s|%s%v%v|%s%v%v", desc, tr.Ch[0].Name, tr.Ch[0].Cuts, tr.Ch[0].EOFTog, tr.Ch[1].Name, tr.Ch[1].Cuts, tr.Ch[1].EOFTog)
 		r.Case(fp, nontrivial, classes...)
 
-		if nontrivial && r.WantSample() {
+		if nontrivial && rtSamples < 3 && r.WantSample() {
+			rtSamples++
 			r.Sample(map[string]any{"mode": "roundtrip", "transcript": desc, "chunk_c2h": tr.Ch[0], "chunk_h2c": tr.Ch[1]})
 		}
 	})
@@ -1676,6 +1712,11 @@ func TestC30(t *testing.T) {
 		}
 
 		raw, pattern, nmsgs := c30Record(rt, r, env, tr, side)
+		if len(raw) == 0 {
+			// the handler wrote nothing in this transcript: use the client's stream instead
+			side = 0
+			raw, pattern, nmsgs = c30Record(rt, r, env, tr, side)
+		}
 		mut := c30Mutate(rt, env, raw)
 
 		if !mut.Valid && rapid.IntRange(0, 3).Draw(rt, "randomPattern") == 0 {
@@ -1686,6 +1727,12 @@ func TestC30(t *testing.T) {
 		seen := map[string]bool{}
 
 		for _, v := range mut.Variants {
+			if c30TooExpensive(v) {
+				classes = append(classes, "skipped:giant-declared-length")
+
+				continue
+			}
+
 			c30Journal(r, fmt.Sprintf("hostile side=%d chunk=%s%v pattern=%d", side, ch.Name, ch.Cuts, pattern), v)
 
 			res := c30Hostile(rt, r, env, side, v, ch, pattern)
@@ -1778,8 +1825,8 @@ func c30Seeds(env *c30Env) (seeds [][]byte) {
 			lay := c30Walk(raw)
 
 			for i, o := range lay.LenWords {
-				for _, v := range []uint64{0, 1 << 31, ^uint64(0), 1 << 20} {
-					if lay.LenIsHead[i] && v == 1<<20 {
+				for _, v := range []uint64{0, 1 << 31, ^uint64(0), 1 << 17} {
+					if lay.LenIsHead[i] && v == 1<<17 {
 						continue
 					}
 
@@ -1833,7 +1880,19 @@ func (c30PanicTB) Fatalf(f string, a ...any) {
 }
 func (c30PanicTB) Logf(string, ...any) {}
 
-const c30FuzzMaxAlloc = 16 << 20 // fuzz workers run in parallel: skip inputs that make the reader allocate more than this per field
+// c30MaxDeclared: util.EnsureRead allocates a fresh buffer of the whole remaining declared length for every Read call, so
+// a hint/header length word of N bytes on a stream delivered in k chunks costs k*N bytes of allocation (N up to 2 GiB).
+// Inputs whose hint/header length words (found by the reference walker, which reads a superset of what the brokers read)
+// declare more than this bound (and not more than the reader's own cap) are not executed: they would exhaust the shared
+// machine. As a second line of defence the hostile-mode stream refuses read buffers above c30MaxReadBuf.
+const (
+	c30MaxDeclared = 256 << 10
+	c30MaxReadBuf  = 1 << 20
+)
+
+func c30TooExpensive(raw []byte) bool {
+	return c30Walk(raw).MaxAlloc > c30MaxDeclared
+}
 
 // c30FuzzOne: first byte = side (bit 0), chunking (bits 1-2: whole, 1-byte, 3-byte, 7/1/13), EOF-with-data (bit 3),
 // client read pattern (bits 4-7); the rest is the peer's byte stream.
@@ -1845,12 +1904,9 @@ func c30FuzzOne(t ev.TB, r *ev.Rec, env *c30Env, data []byte) {
 	flags, raw := data[0], data[1:]
 	side := int(flags & 1)
 
-	// giant declared hint/header lengths: the reader allocates them before reading (documented cap 2 GiB); parallel fuzz
-	// workers would exhaust the machine, so those inputs are left to TestC30's single deterministic case
-	for o := 0; o+8 <= len(raw); o++ {
-		if v := binary.BigEndian.Uint64(raw[o:]); v > c30FuzzMaxAlloc && v <= math.MaxInt32 {
-			return
-		}
+	// giant declared hint/header lengths are left to TestC30's single deterministic case
+	if c30TooExpensive(raw) {
+		return
 	}
 
 	ch := c30Chunking{Name: "whole"}
